@@ -138,3 +138,89 @@ Proof.
   rewrite existsb_zero_offsets by assumption.
   rewrite Htsz, Hlen. reflexivity.
 Qed.
+
+(* ---------- re-encoding, with "canonical" read off by the independent layout reader ---------- *)
+
+Lemma parse_layout_inv b l : parse_layout b = Some l ->
+  let k := ((length b - 104) / 40)%nat in
+  length b = (104 + 40 * k)%nat /\
+  word_at b 0 = 48 /\
+  (forall j, (j < k)%nat -> word_at b (64 + 40 * j) <> 0) /\
+  word_at b (64 + 40 * k) = 0 /\
+  ly_index_offset l = word_at b (64 + 40 * k + 16) /\
+  ly_table_size l = word_at b (64 + 40 * k + 24).
+Proof.
+  intros E. cbv zeta. unfold parse_layout in E. set (k := ((length b - 104) / 40)%nat) in *.
+  destruct (length b <? 104)%nat eqn:E0; [discriminate|]. apply Nat.ltb_ge in E0.
+  destruct (negb ((length b - 104) mod 40 =? 0)%nat) eqn:E1; [discriminate|].
+  apply negb_false_iff, Nat.eqb_eq in E1.
+  destruct (negb (word_at b 0 =? 48)) eqn:E2; [discriminate|]. apply negb_false_iff, N.eqb_eq in E2.
+  destruct (negb (word_at b 8 =? CaFormatIndex)); [discriminate|].
+  destruct (negb (word_at b 48 =? MaxUint64)); [discriminate|].
+  destruct (negb (word_at b 56 =? CaFormatTable)); [discriminate|].
+  destruct (existsb _ _) eqn:E3; [discriminate|].
+  destruct (negb (word_at b (64 + 40 * k) =? 0)) eqn:E4; [discriminate|]. apply negb_false_iff, N.eqb_eq in E4.
+  destruct (negb (word_at b (64 + 40 * k + 8) =? 0)); [discriminate|].
+  destruct (negb (word_at b (64 + 40 * k + 32) =? CaFormatTableTailMarker)); [discriminate|].
+  inversion E; subst. clear E. cbn [ly_index_offset ly_table_size].
+  split.
+  { pose proof (Nat.div_mod (length b - 104) 40 ltac:(lia)) as Hd. rewrite E1 in Hd. unfold k. lia. }
+  split; [exact E2|]. split; [|split; [exact E4|split; reflexivity]].
+  intros j Hj Hz.
+  assert (Hex : existsb (fun it : N * list byte => fst it =? 0)
+                  (map (fun j => (word_at b (64 + 40 * j), slice b (72 + 40 * j) 32)) (seq 0 k)) = true).
+  { apply existsb_exists. exists (word_at b (64 + 40 * j), slice b (72 + 40 * j) 32). split.
+    - apply in_map_iff. exists j. split; [reflexivity|]. apply in_seq. lia.
+    - cbn [fst]. now apply N.eqb_eq. }
+  rewrite Hex in E3. discriminate.
+Qed.
+
+(* A file of real bytes that IndexFromReader accepts and that the fixed-offset reader of the caibx
+   layout parses with canonical tail fields is reproduced byte for byte by WriteTo. *)
+Theorem index_reencode_layout d b i l :
+  wf_bytes b -> decode_index d b = Ok i -> parse_layout b = Some l -> canonical_tail b l = true ->
+  encode_index i = b.
+Proof.
+  intros Hwf Ed Hl Hc.
+  unfold decode_index in Ed.
+  destruct (index_from_reader d b) as [[[i'|er|pp] rest] a] eqn:Ei; try discriminate.
+  inversion Ed; subst i'. clear Ed.
+  destruct (index_from_reader_inv _ _ _ _ _ Ei Hwf) as [sz [x [y [items [Hb [Hsz [Hx [Hy [Hwfi _]]]]]]]]].
+  destruct (parse_layout_inv _ _ Hl) as [Hlen [Hw0 [Hnz [Hz [Hio Hts]]]]].
+  set (k := ((length b - 104) / 40)%nat) in *.
+  set (W6 := le64s [sz; CaFormatIndex; ix_flags i; ix_min i; ix_avg i; ix_max i]) in *.
+  set (W2 := le64s [MaxUint64; CaFormatTable]) in *.
+  set (W5 := le64s [0; 0; x; y; CaFormatTableTailMarker]) in *.
+  assert (HW6 : length W6 = 48%nat) by (unfold W6; rewrite le64s_length; reflexivity).
+  assert (HW2 : length W2 = 16%nat) by (unfold W2; rewrite le64s_length; reflexivity).
+  assert (HW5 : length W5 = 40%nat) by (unfold W5; rewrite le64s_length; reflexivity).
+  assert (HE : length (enc_titems items) = (40 * length items)%nat) by (now apply enc_titems_length).
+  assert (Hlenb : length b = (104 + 40 * length items + length rest)%nat).
+  { rewrite Hb at 1. rewrite !app_length, HW6, HW2, HW5, HE. lia. }
+  (* offsets of the rows, and the terminator behind them, in b *)
+  assert (Hrow : forall j, (j < length items)%nat -> word_at b (64 + 40 * j) <> 0).
+  { intros j Hj. rewrite Hb.
+    replace (W6 ++ W2 ++ enc_titems items ++ W5 ++ rest) with ((W6 ++ W2) ++ enc_titems items ++ (W5 ++ rest)) by (now rewrite <- !app_assoc).
+    destruct (titem_at items (W6 ++ W2) (W5 ++ rest) j Hwfi Hj) as [E1 _].
+    rewrite app_length, HW6, HW2 in E1. replace (48 + 16 + 40 * j)%nat with (64 + 40 * j)%nat in E1 by lia. rewrite E1.
+    rewrite Forall_forall in Hwfi. specialize (Hwfi (nth j items (0, [])) (nth_In _ _ Hj)).
+    destruct (nth j items (0, [])) as [o id]. destruct Hwfi as [_ [Ho _]]. exact Ho. }
+  assert (Hterm : word_at b (64 + 40 * length items) = 0).
+  { rewrite Hb.
+    replace (W6 ++ W2 ++ enc_titems items ++ W5 ++ rest) with ((W6 ++ W2 ++ enc_titems items) ++ W5 ++ rest) by (now rewrite <- !app_assoc).
+    pose proof (word_at_words [0; 0; x; y; CaFormatTableTailMarker] (W6 ++ W2 ++ enc_titems items) rest 0%nat) as Hw.
+    rewrite !app_length, HW6, HW2, HE in Hw. replace (48 + (16 + 40 * length items) + 8 * 0)%nat with (64 + 40 * length items)%nat in Hw by lia.
+    apply Hw; [cbn; lia|]. repeat constructor; unfold w64; try assumption; reflexivity. }
+  assert (Hk : length items = k).
+  { destruct (lt_eq_lt_dec (length items) k) as [[Hlt|Heq]|Hgt]; [|exact Heq|].
+    - exfalso. exact (Hnz _ Hlt Hterm).
+    - exfalso. exact (Hrow _ Hgt Hz). }
+  assert (Hrest : rest = []) by (apply length_zero_iff_nil; lia).
+  apply (index_reencode d); [exact Hwf| |].
+  - unfold decode_index_rest, run_result. rewrite Ei, Hrest. reflexivity.
+  - apply andb_true_iff in Hc. destruct Hc as [Hc1 Hc2]. apply N.eqb_eq in Hc1, Hc2.
+    unfold canonical. split; [exact Hw0|]. rewrite Hio in Hc1. rewrite Hts in Hc2.
+    replace (length b - 24)%nat with (64 + 40 * k + 16)%nat by lia.
+    replace (length b - 16)%nat with (64 + 40 * k + 24)%nat by lia.
+    split; assumption.
+Qed.
